@@ -102,13 +102,18 @@ claim("C14", "origin taint + control dependence on strategy flags (with two re-v
       "satisfy chromStart=E0-1, chromEnd=Elast, size=e1-e0+1, start=e0-E0, count=len. Block ordering/positivity is not decided.",
       "DESIGN.md 3/C14 (B1-B3)")
 
-claim("C05", "drop-site inventory with a documented filter vocabulary over guard atoms; sibling agreement; loop-exit and partition checks",
+claim("C05", "drop-site inventory with a documented filter vocabulary over guard atoms; sibling agreement; loop-exit and partition checks; "
+      "path-wise symbolic tiling proof of the region splitter in linear normal form; sign check of the index-slice bin offsets",
       "Decides the 'who may drop a read' half: along the whole read path every continue/return/break before a read is forwarded is "
       "controlled only by documented filter atoms (unmapped, supplementary, secondary policy, MAPQ cut-offs, no exons, multimap "
       "verdict, None guards) and forwarding is unconditional; genic/intergenic pre-filters agree; every split region is processed "
-      "and the last one flushed; the statistics chain is a partition. Completeness of coverage-valley splitting / per-region "
-      "re-fetch (bin arithmetic) is NOT decided - a known defect there is described in DESIGN.md section 7.",
-      "DESIGN.md 3/C05 (D1-D4)")
+      "and the last one flushed; the statistics chain is a partition; storage reset() is complete. Region cutting: on every syntactic "
+      "path of split_coverage_regions (and across two consecutive loop iterations) each appended sub-region starts no later than one past "
+      "the covered prefix and the returned list reaches the cluster end or is the whole cluster (D6); the in-memory storage's candidate "
+      "slice [end_index[bin(r0)+a], start_index[bin(r1)+b]) has a <= 0 and 1 <= b <= fill bound, candidates are yielded iff they overlap the "
+      "closed region, the BAM sibling fetches [r0, r1+1) (D7). Where the valleys fall, duplicate suppression and count equality are value-level "
+      "and not decided.",
+      "DESIGN.md 3/C05 (D1-D4), 11.1 (D5-D7)")
 
 claim("C07", "typestate over marker files: derived file-owning classes, dominance of close() over marker creation, invalidate-before-consume, atomic-publish",
       "Decides the resume protocol structurally: every writer alive in a marker-creating function is explicitly closed before the "
